@@ -431,6 +431,13 @@ func (c *modsetCache) modSpecKeys(ms ModSpec, ptypes map[string]types.Type, m *m
 	case "all":
 		m.all = true
 		m.why = "modifies all"
+	case "everything":
+		m.all = true
+		m.book = true
+		m.why = "modifies everything"
+		if m.bookWhy == "" {
+			m.bookWhy = m.why
+		}
 	case "heap":
 		m.heapAll = true
 		m.why = "modifies heap"
